@@ -36,6 +36,13 @@ CUnaryVec == { Case(op, v, None, None) : op \in {"unit", "neg"}, v \in AllVecs }
 \* -------- scalar-parameter operations
 CScale == { Case("scale", v, None, <<f>>) : v \in AllVecs, f \in Factors }
           \cup { Case("divide", v, None, <<f>>) : v \in AllVecs, f \in Factors \ {Zero} }
+\* lower-dimensional scale / negation / transform on higher-dimensional vectors (stored-record contract)
+CPartial == { Case("scale2D", v, None, <<f>>) : v \in Vec3 \cup Vec4, f \in Factors }
+            \cup { Case("scale3D", v, None, <<f>>) : v \in Vec4, f \in Factors }
+            \cup { Case("neg2D", v, None, None) : v \in Vec3 \cup Vec4 }
+            \cup { Case("neg3D", v, None, None) : v \in Vec4 }
+            \cup { Case("transform2D_partial", v, None, <<m>>) : v \in Vec3 \cup Vec4, m \in Mats2 }
+            \cup { Case("transform3D_partial", v, None, <<m>>) : v \in Vec4, m \in Mats3 }
 CRotate == { Case("rotateZ", v, None, <<g>>) : v \in AllVecs, g \in Circle }
            \cup { Case(op, v, None, <<g>>) : op \in {"rotateX", "rotateY"}, v \in Vec3 \cup Vec4, g \in Circle }
 EulerVecs == IF Tier = "quick" THEN { V3(3, 4, 12), V3(1, 2, 3), V4(-9, 12, -20, 65) }
@@ -75,6 +82,7 @@ On(g) == Group = "all" \/ Group = g
 Init == \/ On("unary") /\ c \in CUnary
         \/ On("unaryvec") /\ c \in CUnaryVec
         \/ On("scale") /\ c \in CScale
+        \/ On("partial") /\ c \in CPartial
         \/ On("rotate") /\ c \in CRotate
         \/ On("euler") /\ c \in CEuler
         \/ On("quat") /\ c \in CQuat
@@ -92,5 +100,5 @@ Spec == Init /\ [][Next]_c
 Emit == PrintT("@@CASE " \o ToJson(c))
 
 \* every case has one of the four result shapes (TLC checks this on every state)
-WellFormed == c.exp[1] \in {"num", "vec", "bool", "undef"}
+WellFormed == c.exp[1] \in {"num", "vec", "bool", "undef", "partial"}
 =============================================================================
